@@ -129,6 +129,11 @@ class MultiStep(Sweeper):
         """
         lvl = self.level
 
+        # a step that does not start where the stored history ends belongs to a new integration (e.g. a second call of
+        # `run` on the same controller): the history of the previous one must not be used
+        if self.cache.t[-1] is not None and abs(lvl.time - self.cache.t[-1]) > 1e-10 * max(1.0, abs(lvl.time), abs(lvl.dt)):
+            self.cache = Cache(self.steps)
+
         if all(me is None for me in self.cache.t):
             prob = lvl.prob
             lvl.f[0] = prob.eval_f(lvl.u[0], lvl.time)
